@@ -60,10 +60,19 @@ func textBudget(ctx *Ctx) float64 {
 
 func PrepareC11(ctx *Ctx) (*Prepared, error) {
 	p := prepareTextShards(ctx, "C11", textCases, []string{"c11"}, textBudget(ctx))
+	// names that are keywords of the language: accepted => present in the File
+	kj := &Job{Name: "C11-keyword-names", Dir: filepath.Join(ctx.Verif, "harness"), Patterns: []string{"./text"},
+		Opt: JobOptions{LoopBudget: 100000, AllocLimit: 1 << 22, TimeoutMs: 20000, EnumCap: 300, CheckRewrites: true, Witnesses: 1, FuncBudgetS: textBudget(ctx)}}
+	for i := 0; i < 5; i++ {
+		kj.Funcs = append(kj.Funcs, fmt.Sprintf("vh/text.VH_C11K_%02d", i))
+	}
+	p.Jobs = append(p.Jobs, kj)
+	p.ExpectReach[kj.Name] = []string{"c11kw"}
 	p.Bounds = map[string]interface{}{
 		"cases":   "145 schema ASTs: 45 single-construct schemas (enums over every base type incl. negative hexadecimal members, [flags], structs with every type-expression form, readonly, integer and 4-character opcodes, messages, unions, consts of every literal form, imports, go_package, doc comments, block comments in bodies, deprecations on first/last/union members, end-of-line comments, consts followed by documented definitions) + all 100 ordered pairs of 10 attributed definition kinds (each pair one definition per line, each definition on one line, and both on the same line)",
 		"layouts": "LF / CRLF, space / tab indentation, one-line / multi-line; one separator byte symbolic over {space, tab}",
 		"thorough": "Deep mode: the first definition of every ordered pair and the structural cases keep their symbolic digits and identifier characters (quick: concrete), two identifier characters symbolic, all six layouts on every case without docs",
+		"keyword_names": "each of the 16 keywords as the name of an enum member, struct field, message field, union branch and definition: if the text is accepted the element is in the File under that name",
 		"outside": "schemas outside the case list; comment placements other than directly above a definition, field or option; more than one symbolic character per identifier",
 	}
 	p.Explanation = "bounded symbolic execution of bebop.ReadFile (tokenizer, token tree, parser, flag expression evaluator) on printed ASTs with symbolic details; the File returned is compared field by field with the File built from the AST"
@@ -145,6 +154,10 @@ func PrepareC13(ctx *Ctx) (*Prepared, error) {
 	for w := 0; w < 6; w++ {
 		funcs = append(funcs, fmt.Sprintf("VH_C13D_%02d", w), fmt.Sprintf("VH_C13N_%02d", w))
 	}
+	funcs = append(funcs, "VH_C13D_06", "VH_C13D_07")
+	for w := 1; w < 8; w++ {
+		funcs = append(funcs, fmt.Sprintf("VH_C13F_%02d", w))
+	}
 	for w := 0; w < 11; w++ {
 		funcs = append(funcs, fmt.Sprintf("VH_C13U_%02d", w))
 	}
@@ -159,7 +172,7 @@ func PrepareC13(ctx *Ctx) (*Prepared, error) {
 	}
 	p := prepareTextFuncs(ctx, "C13", funcs, "c13")
 	p.Bounds = map[string]interface{}{
-		"error_classes": "duplicate names (struct/message fields, enum options, definitions of every pair of kinds, inline union branch vs top level, consts) with the two names symbolic; duplicate enum values (unsigned and signed), message and union indices, opcodes over every pair of record kinds, message index zero, with the numbers symbolic; undefined type reference at 7 kinds of site with the referenced name symbolic; definitions named like each of the 14 primitives; enum literals (3-5 symbolic digits, positive and negative) against each base type's range plus the 64-bit boundaries; const literals of the wrong kind; struct containment over 3 structs with two symbolic field types each (every graph) plus a message that breaks recursion",
+		"error_classes": "duplicate names (struct/message fields, enum options, definitions of every pair of kinds, inline union branch vs top level, consts) with the two names symbolic; duplicate enum values (unsigned and signed), message and union indices, opcodes over every pair of record kinds, message index zero, with the numbers symbolic; undefined type reference at 7 kinds of site with the referenced name symbolic; definitions named like each of the 14 primitives; enum literals (3-5 symbolic digits, positive and negative) against each base type's range plus the 64-bit boundaries, the same for literal [flags] members; duplicate field names, primitive names and self-containment inside inline union branches; numeric const literals that cannot be read as their type; const literals of the wrong kind; struct containment over 3 structs with two symbolic field types each (every graph) plus a message that breaks recursion",
 		"oracle":        "rejected (ReadFile or Validate returns an error) exactly when the reference predicate over the symbolic parts says the injected error is present",
 		"outside":       "errors injected into larger schemas, several errors at once, array/map-mediated self-reference (the property does not fix it), integer consts out of range for their width (idem)",
 	}
